@@ -26,7 +26,6 @@ import (
 	"golang.org/x/sys/unix"
 
 	"github.com/panjf2000/gnet/v2/internal/gfd"
-	"github.com/panjf2000/gnet/v2/pkg/bs"
 	"github.com/panjf2000/gnet/v2/pkg/buffer/elastic"
 	errorx "github.com/panjf2000/gnet/v2/pkg/errors"
 	gio "github.com/panjf2000/gnet/v2/pkg/io"
@@ -95,18 +94,11 @@ func (c *conn) release() {
 	c.ctx = nil
 	c.safeCtx.Store(nil)
 	c.buffer = nil
-	if addr, ok := c.localAddr.(*net.TCPAddr); ok && len(c.loop.listeners) == 0 && len(addr.Zone) > 0 {
-		bsPool.Put(bs.StringToBytes(addr.Zone))
-	}
-	if addr, ok := c.remoteAddr.(*net.TCPAddr); ok && len(addr.Zone) > 0 {
-		bsPool.Put(bs.StringToBytes(addr.Zone))
-	}
-	if addr, ok := c.localAddr.(*net.UDPAddr); ok && len(c.loop.listeners) == 0 && len(addr.Zone) > 0 {
-		bsPool.Put(bs.StringToBytes(addr.Zone))
-	}
-	if addr, ok := c.remoteAddr.(*net.UDPAddr); ok && len(addr.Zone) > 0 {
-		bsPool.Put(bs.StringToBytes(addr.Zone))
-	}
+	// The Zone strings of the addresses are not returned to the byte-slice pool:
+	// they are immutable and usually not owned by the connection (package net
+	// hands out the strings of its interface-name cache, shared by every address
+	// of that zone), so pooling their bytes let later bsPool.Get calls alias each
+	// other and overwrite net's cached interface name.
 	c.localAddr = nil
 	c.remoteAddr = nil
 	if !c.isDatagram {
